@@ -97,7 +97,8 @@ func (fg *FnGen) callWith(cc *ssa.CallCommon, args []*Val, resT types.Type, pos 
 		}
 		if mc != nil && fn != nil {
 			for i, fv := range fn.FreeVars {
-				names = append(names, fv.Name())
+				// captured by reference: the contract names the variable, the argument is its cell ("&name")
+				names = append(names, "&"+fv.Name())
 				args = append(args, fg.val(mc.Bindings[i]))
 			}
 			if con == nil {
@@ -118,7 +119,7 @@ func (fg *FnGen) callWith(cc *ssa.CallCommon, args []*Val, resT types.Type, pos 
 		} else if fn != nil && len(fn.FreeVars) > 0 && fn.Parent() == fg.fn.Parent() && fn == fg.fn {
 			// recursive call of a closure through its own captured variable
 			for _, fv := range fn.FreeVars {
-				names = append(names, fv.Name())
+				names = append(names, "&"+fv.Name())
 				args = append(args, fg.val(fv))
 			}
 		}
@@ -275,8 +276,13 @@ func matchCallee(pat, name string) bool {
 // applyContract: check requires, havoc modifies, assume ensures.
 func (fg *FnGen) applyContract(con *Contract, name string, names []string, args []*Val, resT types.Type, pos token.Pos, isGo bool) *Val {
 	vars := map[string]*Val{}
+	cells := map[string]*Val{}
 	for i, a := range args {
 		if i < len(names) {
+			if strings.HasPrefix(names[i], "&") {
+				cells[names[i][1:]] = a // a captured variable of a closure: read through its cell in the state at hand
+				continue
+			}
 			vars[names[i]] = a
 		}
 		vars[fmt.Sprintf("arg%d", i)] = a
@@ -287,6 +293,7 @@ func (fg *FnGen) applyContract(con *Contract, name string, names []string, args 
 		env := fg.env(st, old, vars)
 		env.noLocals = true
 		env.calleePkg = con.PkgPath
+		env.cells = cells
 		return env
 	}
 	for _, l := range con.Lets {
@@ -722,7 +729,21 @@ func (fg *FnGen) checkPost(results []*Val, pos token.Pos) {
 			}
 		}
 	}
+	for _, e := range fg.c.Ensures {
+		if e.Def {
+			if !fg.c.Pure {
+				panic(unsupported("defines clause on a function that is not declared pure"))
+			}
+			fg.note("DEFINITIONAL AXIOM (result of the pure function " + fg.key + " names uninterpreted spec functions; assumed at call sites): " + e.Src)
+			denv := fg.env(fg.cur, fg.entry, vars)
+			denv.noLocals = true
+			fg.assume(fg.evalBool(e.Expr, denv))
+		}
+	}
 	for i, e := range fg.c.Ensures {
+		if e.Def {
+			continue
+		}
 		env := fg.env(fg.cur, fg.entry, vars)
 		env.noLocals = true
 		t := fg.evalBool(e.Expr, env)
@@ -1321,6 +1342,13 @@ func (fg *FnGen) applyCallback(cb *Val, name string, pos token.Pos) {
 			if vv := fg.vals[v]; vv != nil && len(vv.L) == 1 && vv.L[0].S == cb.L[0].S {
 				mc = m
 			}
+		}
+	}
+	if mc == nil && cb != nil && len(cb.L) == 1 {
+		// a function literal without captured variables (or a named function) used as callback
+		if f := fg.funcConsts[cb.L[0].S]; f != nil && len(f.FreeVars) == 0 && len(f.Blocks) > 0 && fg.g.inRepo(fnPkgPath(f)) && closureIsSimple(f, fg.g) {
+			fg.note("callback passed to " + name + ": function without captured variables and without stores or calls, no effect")
+			return
 		}
 	}
 	if mc == nil || !closureIsSimple(mc.Fn.(*ssa.Function), fg.g) {
